@@ -91,7 +91,8 @@ Definition at_normal (s : server) (c : Z) : bool :=
   end.
 
 Definition set_aof (s : server) (a : list (list frame)) : server :=
-  {| s_dbs := s_dbs s; s_trk := s_trk s; s_conns := s_conns s; s_password := s_password s; s_aof := a |}.
+  {| s_dbs := s_dbs s; s_trk := s_trk s; s_conns := s_conns s; s_password := s_password s; s_aof := a;
+     s_pubsub := s_pubsub s |}.
 
 (** the database EVALSHA runs its script in: handle_evalsha_command calls
     commands::lua::handle_eval, which is handle_eval_with_db(.., 0) *)
@@ -116,12 +117,12 @@ Definition h_evalsha (t : Z) (s : server) (c : Z) (dbi : Z) (ca : cache) (parts 
   | _ => (r_err, s)
   end.
 
-Definition lua_state := ((server * list (list bytes)) * cache)%type.
+Definition lua_state := ((server * outbox * list (list bytes)) * cache)%type.
 
 Definition lua_op (st : lua_state) (op : list tok) : list tok * lua_state :=
   match st with
-  | ((s, pend), ca) =>
-    let plain := match srv_op2 (s, pend) op with (o, sp) => (o, (sp, ca)) end in
+  | ((s, ob, pend), ca) =>
+    let plain := match srv_op2 (s, ob, pend) op with (o, sp) => (o, (sp, ca)) end in
     match op with
     | TB name :: TB _ :: _ => if beq name (bs "NOTE") then ([], st) else plain
     | TB name :: TI c :: TI t :: ft =>
@@ -134,11 +135,11 @@ Definition lua_op (st : lua_state) (op : list tok) : list tok * lua_state :=
               if at_normal s c then
                 if beq command (bs "SCRIPT") then
                   match h_script ca parts oracle with
-                  | (r, ca') => (enc_frame (canon_reply command r), ((s, pend), ca'))
+                  | (r, ca') => (enc_frame (canon_reply command r), ((s, ob, pend), ca'))
                   end
                 else if beq command (bs "EVALSHA") then
                   match h_evalsha t s c (match zlookup c (s_conns s) with Some cn => c_db cn | None => 0 end) ca parts with
-                  | (r, s') => (enc_frame (canon_reply command r), ((s', pend), ca))
+                  | (r, s') => (enc_frame (canon_reply command r), ((s', ob, pend), ca))
                   end
                 else plain
               else plain
@@ -154,4 +155,4 @@ Fixpoint lua_ops (st : lua_state) (ops : list (list tok)) : list (list tok) :=
   | [] => []
   | op :: r => match lua_op st op with (o, st') => o :: lua_ops st' r end
   end.
-Definition run_c12 (ops : list (list tok)) : list (list tok) := lua_ops ((init_server None, []), []) ops.
+Definition run_c12 (ops : list (list tok)) : list (list tok) := lua_ops ((init_server None, [], []), []) ops.
